@@ -4,8 +4,8 @@
    Hints: good_hint h = no hint, or a hint of the form [+-]hhmm with hh <= 23, mm <= 59
    (check_dates passes only None or '-0000'). *)
 From Coq Require Import ZArith NArith List Bool.
-From I18n Require Import Lib.Outcome Model.Dates Spec.Calendar Generated.Timezones
-  Proofs.DatesCalendar Proofs.Dates Proofs.DatesVerdict.
+From I18n Require Import Lib.Outcome Lib.PyDates Model.Dates Spec.Calendar Generated.Timezones Generated.DatesSrc
+  Proofs.DatesCalendar Proofs.Dates Proofs.DatesVerdict Proofs.DatesSrc.
 Import ListNotations.
 Local Open Scope Z_scope.
 
@@ -136,6 +136,52 @@ Proof. exact real_env_ok. Qed.
 Print Assumptions C18_real_env_ok.
 
 (* ------------------------------------------------------------------ *)
+(* Source tie (notes/SRC7.md).  Generated/DatesSrc.v is the statement-by-statement translation (tools/gen/gen_dates_src.py,
+   regenerated on every run) of gettext.boilerplate_date, gettext.epoch, gettext.parse_date, gettext.fix_date_format and
+   Checker.check_dates.  With the calls the translator leaves as oracles (str.strip, the two regexes, datetime.strptime,
+   _timezones, utc_now, datetime comparison) instantiated by the model's scanners (model_oracles E now), every translated
+   function EQUALS the model, for all arguments: exceptions (of_outcome), tags with their names and arguments (of_dtag).
+   An edit of that Python code changes the generated text and these no longer compile. *)
+Theorem C18_source_tie_constants :
+  src_boilerplate_date = boilerplate_date /\ forall E now, src_epoch (model_oracles E now) = stamp_us epoch_stamp.
+Proof. exact (conj src_boilerplate_date_eq src_epoch_stamp_eq). Qed.
+Print Assumptions C18_source_tie_constants.
+
+Theorem C18_source_tie_parse_date : forall E now s,
+  src_parse_date (model_oracles E now) s = of_outcome stamp_us (parse_date s).
+Proof. exact src_parse_date_eq. Qed.
+Print Assumptions C18_source_tie_parse_date.
+
+Theorem C18_source_tie_fix_date_format : forall E now s hint,
+  src_fix_date_format (model_oracles E now) s hint = of_outcome (fun r => r) (fix_date E hint s).
+Proof. exact src_fix_date_format_eq. Qed.
+Print Assumptions C18_source_tie_fix_date_format.
+
+(* `for date in dates:` for a field name f on which the two startswith tests answer as for PO-Revision-Date (is_po = true)
+   or as for POT-Creation-Date (is_po = false) *)
+Theorem C18_source_tie_date_loop : forall E now tmpl bin md pub f is_po dates, field_ok f is_po ->
+  src_check_dates_loop2 (model_oracles E now) (ctx_of tmpl bin md) pub f dates
+  = of_tags f (check_each E now (dctx_of tmpl bin pub) is_po dates).
+Proof. exact src_check_dates_loop2_eq. Qed.
+Print Assumptions C18_source_tie_date_loop.
+
+(* one iteration of `for field in ...`: duplicate / missing (POT-Creation-Date of an MO file exempt) / the dates *)
+Theorem C18_source_tie_field_loop : forall E now tmpl bin md pub f is_po fs, field_ok f is_po ->
+  src_check_dates_loop1 (model_oracles E now) (ctx_of tmpl bin md) pub (f :: fs)
+  = pseq (of_tags f (check_field E now (dctx_of tmpl bin pub) is_po (md f)))
+         (src_check_dates_loop1 (model_oracles E now) (ctx_of tmpl bin md) pub fs).
+Proof. exact src_check_dates_loop1_step. Qed.
+Print Assumptions C18_source_tie_field_loop.
+
+(* the whole method, for every ctx.metadata (md), ctx.is_template, ctx.is_binary and current time: the tags about
+   POT-Creation-Date, then those about PO-Revision-Date *)
+Theorem C18_source_tie_check_dates : forall E now tmpl bin md,
+  src_check_dates (model_oracles E now) (ctx_of tmpl bin md)
+  = of_both (check_dates E now tmpl bin (md f_ct) (md f_pot) (md f_po)).
+Proof. exact src_check_dates_eq. Qed.
+Print Assumptions C18_source_tie_check_dates.
+
+(* ------------------------------------------------------------------ *)
 (* non-vacuity *)
 Definition str_2012 : list N := [50; 48; 49; 50; 45; 49; 49; 45; 48; 49]%N.                 (* 2012-11-01 *)
 Definition ex_in : list N :=                                                                  (* " 2012-11-01T14:42:59 GMT+01:00\n" *)
@@ -164,4 +210,17 @@ Proof. vm_compute. reflexivity. Qed.
 Example ex_not_ancient :
   check_one real_env (1049004000 * 60000000) {| is_template := false; is_binary := false; is_publican := false |} true
     [49; 57; 57; 53; 45; 48; 55; 45; 48; 50; 32; 48; 48; 58; 48; 48; 43; 48; 48; 48; 48]%N = Ok [].
+Proof. vm_compute. reflexivity. Qed.
+(* the translated check_dates, run on an MO file's header with a PO-Revision-Date one minute before the epoch, at time 0 *)
+Example ex_src_check_dates :
+  src_check_dates (model_oracles real_env 0)
+    (ctx_of false false (fun k => if list_eqb k f_po then [[49; 57; 57; 53; 45; 48; 55; 45; 48; 49; 32; 50; 51; 58; 53; 57; 43; 48; 48; 48; 48]%N] else []))
+  = PRet [(t_nofield, [AStr f_pot]);
+          (t_future, [ASafe (f_po ++ s_colon); AStr [49; 57; 57; 53; 45; 48; 55; 45; 48; 49; 32; 50; 51; 58; 53; 57; 43; 48; 48; 48; 48]%N]);
+          (t_ancient, [ASafe (f_po ++ s_colon); AStr [49; 57; 57; 53; 45; 48; 55; 45; 48; 49; 32; 50; 51; 58; 53; 57; 43; 48; 48; 48; 48]%N])].
+Proof. vm_compute. reflexivity. Qed.
+Example ex_src_fix : src_fix_date_format (model_oracles real_env 0) ex_in None = PRet ex_out.
+Proof. vm_compute. reflexivity. Qed.
+Example ex_src_ambiguous :
+  src_fix_date_format (model_oracles real_env 0) (str_2012 ++ [32; 49; 52; 58; 52; 50; 32; 69; 83; 84]%N) None = PRaise XDateSyntaxError.   (* EST *)
 Proof. vm_compute. reflexivity. Qed.
